@@ -1,11 +1,553 @@
-import SigmaVerif.Spec.Rule
+import SigmaVerif.Lemmas.C12Cond
+import SigmaVerif.Lemmas.C12Syn
+import SigmaVerif.Lemmas.C12Append
+import SigmaVerif.Lemmas.C12Kw
+/-!
+# C12 — each pipeline transformation equals its documented source-level rewrite
+
+Property theorems only; proofs of the helper lemmas are in `SigmaVerif.Lemmas.C12*`.
+
+The documented rewrites are the total functions of `Spec/Rewrite.lean` on the rule document
+(`Doc`: detections in source form `Det`, condition texts, fields list).  The theorems below say
+what these rewrites *mean* under the specification semantics of `Spec/Rule.lean`
+(`itemBE`/`detBE`/`condBE`/`ruleBE`, evaluation `BE.eval` under a valuation of atoms) — for **all**
+documents (induction over `Det` and over the fuel of `detBE`, no size bound) and all valuations.
+The correspondence with the code is the sweep of `harness/c12.py`: the query the real backend emits
+through the pipeline is compared with `ruleBE` of the document rewritten by *these* functions
+(driver op `rewrite.case`).
+
+What is a hypothesis, and why:
+* `GoodMap r`: the new names are field names (not empty, no `|`) — otherwise the rewritten key does
+  not spell a field and modifiers;
+* `RefOK r`: a field-reference item has `fieldref` as its first modifier and references plain names
+  (no `\`, `*`, `?`), also after renaming — the code renames the reference *after* the modifiers,
+  the document rewrite *before*; below another value modifier the two differ;
+* `NameOK name`: the name of the added detection is an identifier the condition grammar reads as a
+  name (`_added`, `_cond_…` are);
+* identity of `replace_string` needs "no numeric value in scope": a number is turned into a string
+  even when nothing matches (finding D35, recorded below as a witness).
+-/
 namespace SigmaVerif.Props.C12
-open SigmaVerif.Rule
+open SigmaVerif.SStr SigmaVerif.Mods SigmaVerif.Rule SigmaVerif.Rewrite SigmaVerif.Lemmas.C12
 
 /-- a one-to-many field mapping is an OR: the meaning of `list [d₁, d₂]` is the OR of the parts -/
 theorem list_is_or (cx : Ctx) (f : Nat) (d1 d2 : Det) (e1 e2 : BE)
     (h1 : detBE cx f d1 = .ok e1) (h2 : detBE cx f d2 = .ok e2) :
     detBE cx (f + 1) (.list [d1, d2]) = .ok (.or [e1, e2]) := by
   simp [detBE, mapME, h1, h2]
+
+/-! ## 1. Field renaming -/
+
+/-- **One-to-one renaming, whole rule.**  For every function `r` on field names (injective or not)
+the rule whose fields — in detection items, in field-reference values — were renamed by `r` means
+the original rule with every atom `a` replaced by `renameAtom r a` (the field tested and the field
+referenced go through `r`).  Errors are preserved as well (`Except.map`). -/
+theorem rename_sem (r : Str → Str) (hr : GoodMap r) (cx : Ctx) (doc : Doc) (c : Str)
+    (hok : ∀ d ∈ doc.dets, RefOKDet r d.2) :
+    ruleBE cx (renameFields (fun f => [r f]) doc).dets c =
+      (ruleBE cx doc.dets c).map (mapAtoms (renameAtom r)) :=
+  rename1_rule hr cx doc.dets c hok
+
+/-- the same, as a statement about truth values: the renamed rule holds under the valuation `v`
+iff the original rule holds under `v ∘ renameAtom r` -/
+theorem rename_sem_eval (r : Str → Str) (hr : GoodMap r) (cx : Ctx) (doc : Doc) (c : Str)
+    (hok : ∀ d ∈ doc.dets, RefOKDet r d.2) (e : BE) (h : ruleBE cx doc.dets c = .ok e) :
+    ∃ e', ruleBE cx (renameFields (fun f => [r f]) doc).dets c = .ok e' ∧
+      ∀ v : Atom → Bool, e'.eval v = e.eval (fun a => v (renameAtom r a)) := by
+  refine ⟨mapAtoms (renameAtom r) e, ?_, fun v => eval_mapAtoms _ v e⟩
+  rw [rename_sem r hr cx doc c hok, h]; rfl
+
+/-- renaming touches neither the conditions nor the names of the detections -/
+theorem rename_keeps_conditions (m : Str → List Str) (doc : Doc) :
+    (renameFields m doc).conds = doc.conds ∧ (renameFields m doc).dets.map (·.1) = doc.dets.map (·.1) := by
+  simp [renameFields, mapDets, Function.comp_def]
+
+/-- **One-to-many is an OR, per item.**  An item on field `f` (no field reference) mapped to the
+fields `gs` (zero or several) is replaced, in its place, by the OR over `g ∈ gs` of a copy of the
+whole item on `g`: the copy keeps the modifiers, so below `all` each copy is the AND of its values
+(`(g₁∋x ∧ g₁∋y) ∨ (g₂∋x ∧ g₂∋y)`), never an OR per value. -/
+theorem rename_one_to_many_is_or (m : Str → List Str) (cx : Ctx) (n : Nat) (k f : Str) (vs : List PV) (e : BE)
+    (hf : fieldOf k = some f) (hno : hasMod k "fieldref" = false) (hlen : (m f).length ≠ 1)
+    (hg : ∀ g ∈ m f, g ≠ [] ∧ '|' ∉ g) (he : itemBE cx (some k) vs = .ok e) :
+    renameItem m (k, vs) = .sub (.list ((m f).map (fun g => .map [(g ++ keyRest k, vs)]))) ∧
+    ∃ e', detBE cx (n + 1) (renameItem m (k, vs)).det = .ok e' ∧
+      ∀ v : Atom → Bool, e'.eval v = (m f).any (fun g => e.eval (fun a => v (shiftAtom (some g) id a))) := by
+  have hsyn : renameItem m (k, vs) = .sub (.list ((m f).map (fun g => .map [(g ++ keyRest k, vs)]))) := by
+    have hv : renameValues m k vs = vs := by simp [renameValues, hno]
+    unfold renameItem
+    simp only [hf, hv]
+    match hm : m f with
+    | [] => rfl
+    | [g] => rw [hm] at hlen; simp at hlen
+    | g1 :: g2 :: gs => rfl
+  refine ⟨hsyn, disj ((m f).map (fun g => mapAtoms (shiftAtom (some g) id) e)), ?_, ?_⟩
+  · rw [hsyn]
+    simp only [Out.det]
+    rw [oneToMany_sem cx n k vs (m f) (by simp [hf]) hno hg, he]
+    simp only [Except.map]
+    rw [mapME_ok_map]
+  · intro v
+    rw [eval_disj]
+    simp [List.any_map, Function.comp_def, eval_mapAtoms]
+
+/-- **The pieces of a renamed map are AND-linked, in place.**  Whatever the mapping, the meaning of
+a renamed map is the AND, in the order of the items, of the meanings of what became of each item. -/
+theorem rename_map_is_and_of_pieces (m : Str → List Str) (cx : Ctx) (n : Nat) (items : List KV) :
+    detBE cx (n + 1) (renameDet m (.map items)) =
+      (mapME (fun kv => detBE cx n (renameItem m kv).det) items).map conj := by
+  simp only [renameDet, mapDet]
+  rw [detBE_assemble, mapME_map]
+
+/-- **Field references.**  The values of a `fieldref` item are field names: each is replaced by its
+image(s) under the mapping, spliced into the value list in order (so they stay OR-linked, and
+AND-linked below `all`); values of other items are untouched. -/
+theorem rename_fieldref_values (m : Str → List Str) (k : Str) (vs : List PV) :
+    (hasMod k "fieldref" = true → renameValues m k vs = vs.flatMap (renameValue m) ∧
+      ∀ t, PV.str t ∈ renameValues m k vs ↔ ∃ s, PV.str s ∈ vs ∧ t ∈ m s) ∧
+    (hasMod k "fieldref" = false → renameValues m k vs = vs) := by
+  refine ⟨fun h => ⟨by simp [renameValues, h], fun t => ?_⟩, fun h => by simp [renameValues, h]⟩
+  simp only [renameValues, h, ↓reduceIte, List.mem_flatMap]
+  constructor
+  · rintro ⟨v, hv, ht⟩
+    cases v with
+    | str s => exact ⟨s, hv, by simpa [renameValue] using ht⟩
+    | _ => simp [renameValue] at ht
+  · rintro ⟨s, hs, ht⟩
+    exact ⟨.str s, hs, by simpa [renameValue] using ht⟩
+
+/-- the meaning of a renamed field-reference item is part of `rename_sem`; this is its item-level
+form: both the field of the item and the referenced fields go through `r` -/
+theorem rename_fieldref_item (r : Str → Str) (hr : GoodMap r) (cx : Ctx) (kv : KV) (hk : RefOK r kv) :
+    itemBE cx (some (rename1KV r kv).1) (rename1KV r kv).2 =
+      (itemBE cx (some kv.1) kv.2).map (mapAtoms (renameAtom r)) :=
+  rename1_item hr cx kv hk
+
+/-- **Fields list.**  Every entry of the `fields` list is replaced by its image(s), in order. -/
+theorem rename_fields_list (m : Str → List Str) (doc : Doc) :
+    (renameFields m doc).fields = doc.fields.flatMap m ∧
+    ∀ g, g ∈ (renameFields m doc).fields ↔ ∃ f ∈ doc.fields, g ∈ m f := by
+  simp [renameFields, List.mem_flatMap]
+
+/-- a mapping restricted by field name conditions leaves a field outside the conditions alone —
+in detection items, in references and in the fields list -/
+theorem rename_scope_fields (sc : FScope) (m : Str → List Str) (f : Str) (h : sc (some f) = false) :
+    scopedMap sc m f = [f] := by simp [scopedMap, h]
+
+/-- prefix, suffix, table and prefix-table mappings are instances -/
+theorem rename_instances (p s f : Str) (tbl : List (Str × List Str)) :
+    addPrefix p f = [p ++ f] ∧ addSuffix s f = [f ++ s] ∧
+    (tbl.lookup f = none → tableMap tbl f = [f]) ∧
+    ((∀ e ∈ tbl, e.1.isPrefixOf f = false) → prefixMap tbl f = [f]) := by
+  refine ⟨rfl, rfl, fun h => by simp [tableMap, h], fun h => ?_⟩
+  have : tbl.find? (fun e => e.1.isPrefixOf f) = none := by
+    simp only [List.find?_eq_none]; intro e he; simp [h e he]
+  simp [prefixMap, this]
+
+/-- **Keywords mapped to a field keep substring semantics.**  A keyword list of strings becomes the
+item `field|contains: …` with the same strings; it means what the keywords meant with every atom
+"some field contains the text matching `p`" turned into "`field` matches `*p*`" (`kwAtom`; a
+wildcard already at an end is not doubled). -/
+theorem keywordToField_is_contains (g : Str) (hne : g ≠ []) (hbar : '|' ∉ g) (cx : Ctx) (n : Nat)
+    (strs : List Str) (hs : strs ≠ []) :
+    keywordToFieldDet g (.values (strs.map PV.str)) = .map [(g ++ "|contains".toList, strs.map PV.str)] ∧
+    detBE cx n (keywordToFieldDet g (.values (strs.map PV.str))) =
+      (detBE cx n (.values (strs.map PV.str))).map (mapAtoms (kwAtom g)) := by
+  have hsyn : keywordToFieldDet g (.values (strs.map PV.str)) = .map [(g ++ "|contains".toList, strs.map PV.str)] := rfl
+  refine ⟨hsyn, ?_⟩
+  rw [hsyn, detBE_single, detBE_values]
+  exact keyword_item_sem cx g hne hbar strs hs
+
+/-- only keyword lists are touched: a map keeps all its items -/
+theorem keywordToField_keeps_maps (g : Str) (items : List KV) : keywordToFieldDet g (.map items) = .map items := by
+  simp only [keywordToFieldDet, mapDet]
+  exact assemble_ones id items |>.trans (by simp)
+
+/-! ## 2. Scopes -/
+
+/-- **Scope respected.**  An item outside the scope of a value transformation stays exactly as it
+is, in its place; the item-level gate of a renaming is redundant (an item outside the field name
+conditions is not changed by the scoped mapping anyway); dropping keeps exactly the items outside
+the scope, in order. -/
+theorem scope_respected (vt : VT) (sc : Scope) (fsc : FScope) (m : Str → List Str) (kv : KV) (items : List KV) :
+    (sc kv.1 kv.2 = false → valueItem vt sc kv = .one kv) ∧
+    (fieldScope fsc kv.1 kv.2 = false → renameItem (scopedMap fsc m) kv = .one kv) ∧
+    renameItemGated fsc m kv = renameItem (scopedMap fsc m) kv ∧
+    (∀ kept, dropDet sc (.map items) = some (.map kept) → kept = items.filter (fun kv => !sc kv.1 kv.2)) := by
+  refine ⟨valueItem_out vt sc kv, fun h => ?_, renameItem_gate fsc m kv, fun kept h => ?_⟩
+  · rw [← renameItem_gate]; simp [renameItemGated, h]
+  · rw [dropDet_map] at h
+    split at h
+    · cases h
+    · simpa using h.symm
+
+/-- the positional form for whole maps: the i-th piece of a transformed map is the i-th item itself
+whenever that item is outside the scope -/
+theorem scope_respected_positional (vt : VT) (sc : Scope) (items : List KV) (i : Nat) (kv : KV)
+    (hi : items[i]? = some kv) (hout : sc kv.1 kv.2 = false) :
+    (items.map (valueItem vt sc))[i]? = some (.one kv) := by
+  simp [hi, valueItem_out vt sc kv hout]
+
+/-! ## 3. Identity instances -/
+
+/-- **Empty mapping / mapping without a matching key / scope matching nothing**: a renaming that
+maps every field of the rule (in items, references and the fields list) to itself leaves the
+document unchanged. -/
+theorem identity_rename (m : Str → List Str) (doc : Doc)
+    (hd : ∀ d ∈ doc.dets, ∀ kv ∈ detItems d.2, (∀ f, fieldOf kv.1 = some f → m f = [f]) ∧ ∀ s ∈ refNames kv.1 kv.2, m s = [s])
+    (hf : ∀ f ∈ doc.fields, m f = [f]) :
+    renameFields m doc = doc := by
+  obtain ⟨dets, conds, fields⟩ := doc
+  simp only [renameFields]
+  rw [mapDets_id _ dets (fun d hdm => renameDet_id m d.2 (hd d hdm)), flatMap_singleton_id m fields hf]
+
+/-- an empty `field_name_mapping`, and any mapping under a scope that matches nothing, are such renamings -/
+theorem identity_rename_instances (m : Str → List Str) (doc : Doc) :
+    renameFields (tableMap []) doc = doc ∧ renameFields (scopedMap (fun _ => false) m) doc = doc :=
+  ⟨identity_rename _ doc (fun _ _ _ _ => ⟨fun _ _ => rfl, fun _ _ => rfl⟩) (fun _ _ => rfl),
+   identity_rename _ doc (fun _ _ _ _ => ⟨fun _ _ => rfl, fun _ _ => rfl⟩) (fun _ _ => rfl)⟩
+
+/-- **A value transformation that changes no value in scope** (scope matching nothing; `map_string`
+without a matching key; `replace_string` whose substitution is the identity on the rule's values)
+leaves the document unchanged. -/
+theorem identity_value (vt : VT) (sc : Scope) (doc : Doc) (hs : vt.stripMods = false)
+    (h : ∀ d ∈ doc.dets, ∀ kv ∈ detItems d.2, sc kv.1 kv.2 = false ∨ ∀ v ∈ kv.2, vt.f v = [v]) :
+    valueTransform vt sc doc = doc := by
+  obtain ⟨dets, conds, fields⟩ := doc
+  simp only [valueTransform]
+  rw [mapDets_id _ dets (fun d hdm => valueDet_id vt sc d.2 hs (h d hdm))]
+
+/-- `map_string`: no value of the rule is a key of the mapping (in particular: the empty mapping) -/
+theorem identity_mapString (tbl : List (Str × List Str)) (sc : Scope) (doc : Doc)
+    (h : ∀ d ∈ doc.dets, ∀ kv ∈ detItems d.2, ∀ s, PV.str s ∈ kv.2 → tbl.lookup (plainText s) = none) :
+    valueTransform (mapString tbl) sc doc = doc := by
+  refine identity_value _ sc doc rfl (fun d hd kv hkv => Or.inr (fun v hv => ?_))
+  cases v with
+  | str s => simp [mapString, h d hd kv hkv s hv]
+  | _ => rfl
+
+/-- `replace_string`: the pattern matches nothing in the rule's strings — substituting in the plain
+form and writing the result back gives the value as it was written (false for a value with a
+literal backslash in front of a wildcard: finding D3) — **and no value in scope is a number** -/
+theorem identity_replace (sub : Str → Str) (sc : Scope) (doc : Doc)
+    (h : ∀ d ∈ doc.dets, ∀ kv ∈ detItems d.2, sc kv.1 kv.2 = true →
+      ∀ v ∈ kv.2, (∀ s, v = .str s → replaceText sub s = s) ∧ ∀ n, v ≠ .num n) :
+    valueTransform (replaceString sub) sc doc = doc := by
+  refine identity_value _ sc doc rfl (fun d hd kv hkv => ?_)
+  cases hsc : sc kv.1 kv.2 with
+  | false => exact Or.inl rfl
+  | true =>
+    refine Or.inr (fun v hv => ?_)
+    obtain ⟨h1, h2⟩ := h d hd kv hkv hsc v hv
+    cases v with
+    | str s => simp [replaceString, h1 s rfl]
+    | num n => exact absurd rfl (h2 n)
+    | _ => rfl
+
+/-- **Finding D35, as a witness.**  With a numeric value in scope the identity fails: a substitution
+that changes nothing still turns the number `5` into the string `"5"` (this is what the code does,
+and what three upstream tests pin). -/
+theorem identity_replace_fails_on_numbers :
+    valueDet (replaceString id) (fun _ _ => true) (.map [("f".toList, [.num "5".toList])]) =
+      .map [("f".toList, [.str "5".toList])] := by rfl
+
+/-- **All identity instances**: an empty mapping, a mapping under a scope that matches nothing, a value
+transformation under a scope that matches nothing, `map_string` with an empty mapping, an empty
+nested pipeline — each returns the document it was given; hence (`identity_queries_unchanged`) the
+meaning of every condition, and with it every query, is unchanged. -/
+theorem identity_instances (m : Str → List Str) (vt : VT) (sc : Scope) (doc : Doc) (hs : vt.stripMods = false) :
+    renameFields (tableMap []) doc = doc ∧
+    renameFields (scopedMap (fun _ => false) m) doc = doc ∧
+    valueTransform vt (fun _ _ => false) doc = doc ∧
+    valueTransform (mapString []) sc doc = doc ∧
+    (Tr.nest []).apply doc = .ok doc :=
+  ⟨(identity_rename_instances m doc).1, (identity_rename_instances m doc).2,
+   identity_value vt _ doc hs (fun _ _ _ _ => Or.inl rfl),
+   identity_mapString [] sc doc (fun _ _ _ _ _ _ => rfl),
+   by simp [Tr.apply, Tr.applyL]⟩
+
+theorem identity_queries_unchanged (cx : Ctx) (doc doc' : Doc) (h : doc' = doc) (c : Str) :
+    ruleBE cx doc'.dets c = ruleBE cx doc.dets c := by rw [h]
+
+/-! ## 4. Dropping items -/
+
+/-- **Dropping removes exactly the items in scope.**  Of a map that has a meaning, the items outside
+the scope are kept as they are and in order, the others disappear; the original meaning is
+`kept ∧ dropped`, the new meaning is `kept` — nothing else changes. -/
+theorem drop_removes_exactly (sc : Scope) (cx : Ctx) (n : Nat) (items : List KV) (e : BE)
+    (h : detBE cx n (.map items) = .ok e) :
+    let kept := items.filter (fun kv => !sc kv.1 kv.2)
+    let dropped := items.filter (fun kv => sc kv.1 kv.2)
+    dropDet sc (.map items) = (if kept = [] then none else some (.map kept)) ∧
+    (∀ kv, kv ∈ kept ↔ kv ∈ items ∧ sc kv.1 kv.2 = false) ∧
+    ∃ ek ed, detBE cx n (.map kept) = .ok (conj ek) ∧ detBE cx n (.map dropped) = .ok (conj ed) ∧
+      ∀ v : Atom → Bool, e.eval v = ((conj ek).eval v && (conj ed).eval v) := by
+  intro kept dropped
+  refine ⟨dropDet_map sc items, fun kv => by simp [kept, List.mem_filter], ?_⟩
+  rw [detBE_map] at h
+  cases hm : mapME (fun kv : KV => itemBE cx (some kv.1) kv.2) items with
+  | error x => rw [hm] at h; cases h
+  | ok es =>
+    rw [hm] at h
+    simp only [Except.map, Except.ok.injEq] at h
+    obtain ⟨ek, er, h1, h2, h3⟩ := mapME_filter _ (fun kv : KV => !sc kv.1 kv.2) items es hm
+    simp only [Bool.not_not] at h2
+    refine ⟨ek, er, by rw [detBE_map]; simp [kept, h1, Except.map], by rw [detBE_map]; simp [dropped, h2, Except.map], fun v => ?_⟩
+    rw [← h, eval_conj, eval_conj, eval_conj, h3]
+
+/-- **Dropping every item of a detection** leaves no detection: `dropDet` answers `none`, the
+document rewrite answers `emptied` for the first such detection.  (The code then lets the operand
+vanish from the condition — `sel and flt` becomes `flt`, `flt and not sel` becomes `flt`, a rule
+whose only detection is emptied yields no query; this is C02's subject and is not judged here.) -/
+theorem drop_everything_emptied (sc : Scope) (items : List KV) (name : Str) (rest : List (Str × Det)) (doc : Doc) :
+    (dropDet sc (.map items) = none ↔ ∀ kv ∈ items, sc kv.1 kv.2 = true) ∧
+    ((∀ kv ∈ items, sc kv.1 kv.2 = true) →
+      dropItems sc { doc with dets := (name, .map items) :: rest } = .error (.emptied name)) := by
+  have hnone : dropDet sc (.map items) = none ↔ ∀ kv ∈ items, sc kv.1 kv.2 = true := by
+    rw [dropDet_map]
+    constructor
+    · intro h
+      split at h
+      · rename_i hk
+        intro kv hkv
+        have := List.filter_eq_nil_iff.1 hk kv hkv
+        simpa using this
+      · cases h
+    · intro h
+      have : items.filter (fun kv => !sc kv.1 kv.2) = [] := List.filter_eq_nil_iff.2 (fun kv hkv => by simp [h kv hkv])
+      simp [this]
+  refine ⟨hnone, fun h => ?_⟩
+  simp [dropItems, dropDets, hnone.2 h]
+
+/-! ## 5. Adding a condition -/
+
+/-- **An added condition is an AND.**  Let `name` be a fresh identifier starting with `_` and let
+the new detection (the map of the configured items) mean `b`.  Then *every* condition `c` of the
+rule is replaced by the text `name and (c)` (negated: `not name and (c)`), the specification reader
+takes that text apart as written (proved, not assumed: `read_addCondText`), and the new rule means
+`b ∧ old` (negated: `¬b ∧ old`), where `old` is what the rule meant under `c`. -/
+theorem addCondition_is_and (cx : Ctx) (doc : Doc) (name : Str) (items : List KV) (neg : Bool) (b : BE)
+    (hname : SigmaVerif.Lemmas.C12Read.NameOK name) (hund : name.head? = some '_') (hfresh : ∀ d ∈ doc.dets, d.1 ≠ name)
+    (hnew : detBE cx 8 (.map items) = .ok b) :
+    (addCondition name items neg doc).conds = doc.conds.map (addCondText name neg) ∧
+    (addCondition name items neg doc).dets = doc.dets ++ [(name, .map items)] ∧
+    ∀ c ∈ doc.conds, ∀ (e : CondSpec.E) (old : BE), CondSpec.read c = some e →
+      (∀ p ∈ patterns e, p.head? ≠ some '_') → ruleBE cx doc.dets c = .ok old →
+      ∃ e', ruleBE cx (addCondition name items neg doc).dets (addCondText name neg c) = .ok e' ∧
+        ∀ v : Atom → Bool, e'.eval v = ((if neg then !b.eval v else b.eval v) && old.eval v) := by
+  refine ⟨rfl, rfl, fun c _ e old hread hpat hold => ?_⟩
+  refine ⟨.and [if neg then .not b else b, old], ?_, fun v => ?_⟩
+  · exact ruleBE_addCond cx doc.dets c _ name items neg e old b hread
+      (read_addCondText name c neg e hname hread) hold hnew hfresh
+      (fun p hp => selects_underscore p name hund (hpat p hp))
+  · cases neg <;> simp [BE.eval, BE.evalAll]
+
+/-- the reader lemma on its own: `name and (c)` reads as the AND of `name` and what `c` reads as -/
+theorem addCondition_text_reads (name c : Str) (neg : Bool) (e : CondSpec.E) (h : SigmaVerif.Lemmas.C12Read.NameOK name)
+    (hc : CondSpec.read c = some e) :
+    CondSpec.read (addCondText name neg c) = some (wrapE name neg e) :=
+  read_addCondText name c neg e h hc
+
+/-- a templated condition is the condition with its string values substituted -/
+theorem addCondition_template (vars : List (Str × Str)) (name : Str) (items : List KV) (neg : Bool) (doc : Doc) :
+    addConditionTemplate vars name items neg doc = addCondition name (tplItems vars items) neg doc := rfl
+
+/-! ## 6. Nested pipelines -/
+
+/-- **A nested pipeline is the composition of its items, in order**: nothing for no item, the item
+itself for one, first the head then the rest; nesting is associative (a pipeline of two nested
+pipelines is the pipeline of all their items). -/
+theorem nest_is_composition (t : Tr) (ts a b : List Tr) (doc : Doc) :
+    (Tr.nest []).apply doc = .ok doc ∧
+    (Tr.nest [t]).apply doc = t.apply doc ∧
+    (Tr.nest (t :: ts)).apply doc = (match t.apply doc with | .ok d => (Tr.nest ts).apply d | .error e => .error e) ∧
+    (Tr.nest (a ++ b)).apply doc = (match (Tr.nest a).apply doc with | .ok d => (Tr.nest b).apply d | .error e => .error e) ∧
+    (Tr.nest [Tr.nest a, Tr.nest b]).apply doc = (Tr.nest (a ++ b)).apply doc := by
+  refine ⟨by simp [Tr.apply, Tr.applyL], ?_, ?_, by simp only [Tr.apply]; exact applyL_append a b doc, ?_⟩
+  · simp only [Tr.apply, Tr.applyL]; cases t.apply doc <;> rfl
+  · simp only [Tr.apply, Tr.applyL]; cases t.apply doc <;> rfl
+  · simp only [Tr.apply, Tr.applyL, applyL_append]
+    cases Tr.applyL a doc with
+    | error e => rfl
+    | ok d => simp only []; cases Tr.applyL b d <;> rfl
+
+/-- `add_field`, `remove_field`, `set_field` change the fields list and nothing else: detections and
+conditions — hence every query — stay as they are -/
+theorem fields_list_only (g : Doc → Doc) (fs : List Str) (f : Str) (doc : Doc) :
+    (∃ d', (Tr.fieldsList g).apply doc = .ok d' ∧ d'.dets = doc.dets ∧ d'.conds = doc.conds ∧ d'.fields = (g doc).fields) ∧
+    (addFields fs doc).fields = doc.fields ++ fs ∧ (setFields fs doc).fields = fs ∧
+    (removeFields [f] doc).fields = doc.fields.erase f ∧ (f ∉ doc.fields → (removeFields [f] doc).fields = doc.fields) := by
+  refine ⟨⟨_, rfl, rfl, rfl, rfl⟩, rfl, rfl, rfl, fun h => ?_⟩
+  simp [removeFields, List.erase_of_not_mem h]
+
+/-! ## 7. Value transformations -/
+
+/-- **`set_value` replaces value and type.**  An item in scope becomes the item on the same field
+with *no value modifier* left (only `all`/`neq`, which say how values are linked) and every value
+replaced by the configured one; whatever the old values and their types were, it means what the
+item with the single configured value means. -/
+theorem setValue_replaces_type (v0 : PV) (sc : Scope) (cx : Ctx) (k : Str) (vs : List PV) (e0 : BE)
+    (hin : sc k vs = true) (hne : vs ≠ []) (h0 : itemBE cx (some (stripKey k)) [v0] = .ok e0) :
+    valueItem (setValue v0) sc (k, vs) = .one (stripKey k, vs.map (fun _ => v0)) ∧
+    fieldOf (stripKey k) = fieldOf k ∧ (∀ m ∈ keyMods (stripKey k), m ∈ listMods) ∧
+    ∃ e, itemBE cx (some (stripKey k)) (vs.map (fun _ => v0)) = .ok e ∧ ∀ v : Atom → Bool, e.eval v = e0.eval v := by
+  refine ⟨setValue_item v0 sc (k, vs) hin, (stripKey_spec k).1, fun m hm => ?_, ?_⟩
+  · rw [(stripKey_spec k).2] at hm
+    simpa using (List.mem_filter.1 hm).2
+  · cases vs with
+    | nil => exact absurd rfl hne
+    | cons x xs =>
+      have : (x :: xs).map (fun _ => v0) = List.replicate (xs.length + 1) v0 := by
+        simp [List.replicate_succ, List.map_const']
+      rw [this]
+      exact item_replicate cx (stripKey k) v0 e0 h0 xs.length
+
+/-- **`case` is idempotent**: applying it twice is applying it once — for every case mapping that is
+idempotent on characters and every scope that does not depend on the values themselves. -/
+theorem case_idempotent (cf : Char → Char) (hcf : ∀ c, cf (cf c) = cf c) (sc : Scope)
+    (hsc : ScopeStable sc (casePV cf)) (d : Det) :
+    valueDet (caseString cf) sc (valueDet (caseString cf) sc d) = valueDet (caseString cf) sc d :=
+  valueDet_idem (caseString cf) (casePV cf) (caseString_f cf) rfl (casePV_idem cf hcf) sc hsc d
+
+/-- the two built-in case mappings under field name conditions are instances -/
+theorem case_idempotent_lower_upper (fsc : FScope) (d : Det) :
+    valueDet caseLower (fieldScope fsc) (valueDet caseLower (fieldScope fsc) d) = valueDet caseLower (fieldScope fsc) d ∧
+    valueDet caseUpper (fieldScope fsc) (valueDet caseUpper (fieldScope fsc) d) = valueDet caseUpper (fieldScope fsc) d :=
+  ⟨case_idempotent Char.toLower toLower_idem _ (fieldScope_stable fsc _) d,
+   case_idempotent Char.toUpper toUpper_idem _ (fieldScope_stable fsc _) d⟩
+
+/-- **`map_string` one-to-many is an OR of alternatives.**  In an OR-linked item (no `all`, no `neq`)
+every value is replaced by its images, spliced in place, and the item means: some value has some
+image that matches (`es a` = the meaning of the item with the single value `a`). -/
+theorem mapString_one_to_many_is_or (tbl : List (Str × List Str)) (sc : Scope) (cx : Ctx) (k : Str) (vs : List PV)
+    (es : PV → BE) (hin : sc k vs = true) (hre : hasMod k "re" = false) (href : hasMod k "fieldref" = false)
+    (hall : hasMod k "all" = false) (hneq : hasMod k "neq" = false)
+    (hne : (vs.map (mapString tbl).f).flatten ≠ [])
+    (hes : ∀ a ∈ (vs.map (mapString tbl).f).flatten, itemBE cx (some k) [a] = .ok (es a)) :
+    valueItem (mapString tbl) sc (k, vs) = .one (k, (vs.map (mapString tbl).f).flatten) ∧
+    ∃ e, itemBE cx (some k) (vs.map (mapString tbl).f).flatten = .ok e ∧
+      ∀ v : Atom → Bool, e.eval v = vs.any (fun x => ((mapString tbl).f x).any (fun a => (es a).eval v)) := by
+  have hs : (mapString tbl).stripMods = false := rfl
+  refine ⟨by simp [valueItem, hin, hre, href, hall, hs], ?_⟩
+  obtain ⟨e, h1, h2⟩ := item_or_of_singles cx k hall hneq es _ hne hes
+  refine ⟨e, h1, fun v => ?_⟩
+  rw [h2 v]
+  simp [List.any_flatten, List.any_map, Function.comp_def]
+
+/-- **…also below `all`: the OR is per value.**  If the values are AND-linked and some value has
+several images, the item becomes the AND, value by value, of an OR-linked item over the images of
+that value — never the AND of all images. -/
+theorem mapString_below_all (tbl : List (Str × List Str)) (sc : Scope) (cx : Ctx) (n : Nat) (k : Str) (vs : List PV)
+    (hin : sc k vs = true) (hre : hasMod k "re" = false) (href : hasMod k "fieldref" = false)
+    (hall : hasMod k "all" = true) (hmany : (vs.map (mapString tbl).f).any (fun a => decide (1 < a.length)) = true) :
+    valueItem (mapString tbl) sc (k, vs) =
+      .sub (.all ((vs.map (mapString tbl).f).map (fun a => .map [(dropAllKey k, a)]))) ∧
+    hasMod (dropAllKey k) "all" = false ∧
+    detBE cx (n + 1) (valueItem (mapString tbl) sc (k, vs)).det =
+      (mapME (fun a => itemBE cx (some (dropAllKey k)) a) (vs.map (mapString tbl).f)).map conj := by
+  have hsyn : valueItem (mapString tbl) sc (k, vs) =
+      .sub (.all ((vs.map (mapString tbl).f).map (fun a => .map [(dropAllKey k, a)]))) := by
+    have hs : (mapString tbl).stripMods = false := rfl
+    simp [valueItem, hin, hre, href, hall, hmany, hs]
+  refine ⟨hsyn, ?_, ?_⟩
+  · simp [hasMod, (dropAllKey_spec k).2]
+  · rw [hsyn]
+    simp only [Out.det]
+    rw [detBE_all, mapME_map]
+    congr 1
+    exact mapME_congr _ _ _ (fun a _ => detBE_single cx n (dropAllKey k, a))
+
+/-! ## 8. Non-vacuity: the hypotheses are satisfiable and the conclusions are about real rules -/
+
+section Examples
+
+def cx0 : Ctx := { env := { w := fun _ => false }, nativeCidr := true }
+
+/-- `sel: {fieldA|contains: x, fieldB|fieldref: fieldA}`, `flt: {win.user: [a, b]}`, condition `sel and not flt` -/
+def exDoc : Doc :=
+  { dets := [("sel".toList, .map [("fieldA|contains".toList, [.str "x".toList]), ("fieldB|fieldref".toList, [.str "fieldA".toList])]),
+             ("flt".toList, .map [("win.user".toList, [.str "a".toList, .str "b".toList])])],
+    conds := ["sel and not flt".toList],
+    fields := ["fieldA".toList, "other".toList] }
+
+def exPrefix : Str → Str := fun f => "p.".toList ++ f
+
+example : GoodMap exPrefix := by
+  intro f hne hbar
+  refine ⟨by simp [exPrefix], ?_⟩
+  simp only [exPrefix, List.mem_append, not_or]
+  exact ⟨by decide, hbar⟩
+
+example : ∀ d ∈ exDoc.dets, RefOKDet exPrefix d.2 := by
+  intro d hd kv hkv href
+  simp only [exDoc, List.mem_cons, List.not_mem_nil, or_false] at hd
+  rcases hd with rfl | rfl
+  · simp only [detItems, List.mem_cons, List.not_mem_nil, or_false] at hkv
+    rcases hkv with rfl | rfl
+    · exact absurd href (by decide)
+    · refine ⟨⟨[], by decide⟩, fun v hv s hs => ?_⟩
+      simp only [List.mem_cons, List.not_mem_nil, or_false] at hv
+      subst hv; cases hs
+      exact ⟨by unfold PlainName; decide, by unfold PlainName exPrefix; decide⟩
+  · simp only [detItems, List.mem_cons, List.not_mem_nil, or_false] at hkv
+    subst hkv
+    exact absurd href (by decide)
+
+/-- the renamed document: keys, the referenced field and the fields list carry the prefix -/
+example : renameFields (fun f => [exPrefix f]) exDoc =
+    { dets := [("sel".toList, .map [("p.fieldA|contains".toList, [.str "x".toList]), ("p.fieldB|fieldref".toList, [.str "p.fieldA".toList])]),
+               ("flt".toList, .map [("p.win.user".toList, [.str "a".toList, .str "b".toList])])],
+      conds := ["sel and not flt".toList],
+      fields := ["p.fieldA".toList, "p.other".toList] } := by rfl
+
+/-- and what it means -/
+example : ruleBE cx0 (renameFields (fun f => [exPrefix f]) exDoc).dets "sel and not flt".toList =
+    .ok (.and [.and [.atom (.str (some "p.fieldA".toList) false [.star, .lit 'x', .star]),
+                     .atom (.ref (some "p.fieldB".toList) "p.fieldA".toList false false)],
+               .not (.or [.atom (.str (some "p.win.user".toList) false [.lit 'a']),
+                          .atom (.str (some "p.win.user".toList) false [.lit 'b'])])]) := by rfl
+
+/-- one-to-many: `fieldA ↦ [m1, m2]` turns the map into the AND of an OR and the untouched item -/
+example : renameDet (tableMap [("fieldA".toList, ["m1".toList, "m2".toList])])
+      (.map [("fieldA|contains|all".toList, [.str "x".toList, .str "y".toList]), ("fieldB".toList, [.num "5".toList])]) =
+    .all [.list [.map [("m1|contains|all".toList, [.str "x".toList, .str "y".toList])],
+                 .map [("m2|contains|all".toList, [.str "x".toList, .str "y".toList])]],
+          .map [("fieldB".toList, [.num "5".toList])]] := by rfl
+
+example : SigmaVerif.Lemmas.C12Read.NameOK "_added".toList := by
+  refine ⟨by decide, by decide, by decide, by decide⟩
+
+/-- an added, negated condition on the example rule: `¬(idx = excluded) ∧ (sel ∧ ¬flt)` -/
+example : ruleBE cx0 (addCondition "_added".toList [("idx".toList, [.str "excluded".toList])] true exDoc).dets
+      (addCondText "_added".toList true "sel and not flt".toList) =
+    .ok (.and [.not (.atom (.str (some "idx".toList) false [.lit 'e', .lit 'x', .lit 'c', .lit 'l', .lit 'u', .lit 'd', .lit 'e', .lit 'd'])),
+               .and [.and [.atom (.str (some "fieldA".toList) false [.star, .lit 'x', .star]),
+                           .atom (.ref (some "fieldB".toList) "fieldA".toList false false)],
+                     .not (.or [.atom (.str (some "win.user".toList) false [.lit 'a']),
+                                .atom (.str (some "win.user".toList) false [.lit 'b'])])]]) := by rfl
+
+/-- dropping `fieldB` (through the reference as well): the `fieldref` item goes, `flt` stays -/
+example : dropItems (fieldScope (includeFields ["fieldB".toList])) exDoc =
+    .ok { exDoc with dets := [("sel".toList, .map [("fieldA|contains".toList, [.str "x".toList])]),
+                              ("flt".toList, .map [("win.user".toList, [.str "a".toList, .str "b".toList])])] } := by rfl
+
+/-- `set_value` below `contains`: the modifier is void, the type is the configured one -/
+example : valueDet (setValue (.num "7".toList)) (fun _ _ => true) (.map [("f|contains|all".toList, [.str "a".toList, .str "b".toList])]) =
+    .map [("f|all".toList, [.num "7".toList, .num "7".toList])] := by rfl
+
+/-- `map_string` one-to-many below `all`: the OR is per value -/
+example : valueDet (mapString [("abc".toList, ["m1".toList, "m2".toList])]) (fun _ _ => true)
+      (.map [("f|all".toList, [.str "abc".toList, .str "y".toList])]) =
+    .all [.all [.map [("f".toList, [.str "m1".toList, .str "m2".toList])], .map [("f".toList, [.str "y".toList])]]] := by rfl
+
+/-- a nested pipeline: first map, then suffix -/
+example : (Tr.nest [.rename (tableMap [("fieldA".toList, ["mappedA".toList])]), .rename (addSuffix ".s".toList)]).apply
+      { dets := [("sel".toList, .map [("fieldA".toList, [.str "x".toList])])], conds := ["sel".toList] } =
+    .ok { dets := [("sel".toList, .map [("mappedA.s".toList, [.str "x".toList])])], conds := ["sel".toList] } := by rfl
+
+/-- the template of an added condition -/
+example : tplSubst [("category".toList, "cat".toList), ("product".toList, "prod".toList)] "$category-${product}$$x$nope".toList =
+    "cat-prod$x$nope".toList := by decide
+
+end Examples
 
 end SigmaVerif.Props.C12
